@@ -32,7 +32,7 @@ contract(F, "iterRange",
              "implies(isnone(start_pos), self._saved_pos == old(self._saved_pos))",
              "forall(lambda a, b: implies(0 <= a and a < b and b < len(out), out[a][0] < out[b][0]))",
              # the saved position addresses the last element yielded (a legal shortcut for any later traversal)
-             "isnone(start_pos) or len(out) == 0 or (0 <= self._saved_pos < len(self.coords) and self.coords[self._saved_pos] == out[len(out) - 1][0])",
+             "isnone(start_pos) or len(out) == 0 or (0 <= self._saved_pos < len(self.coords) and self.coords[self._saved_pos] <= out[len(out) - 1][0])",
              # soundness: every yielded pair is a stored, in-range, non-empty element with its own payload object
              "forall(lambda k: exists(lambda j: 0 <= j < len(self.coords) and self.coords[j] == out[k][0] and self.payloads[j] is out[k][1] and "
              + QUAL % dict(j="j") + "), 0, len(out))",
@@ -43,7 +43,7 @@ contract(F, "iterRange",
              modifies=BOOK,
              invariant=[
                  "wf(self)", "i >= 0", "not is_collecting", "forall(lambda k: allocated(out[k][1]), 0, len(out))", "implies(isnone(start_pos), self._saved_pos == old(self._saved_pos))",
-                 "isnone(start_pos) or len(out) == 0 or (0 <= self._saved_pos < len(self.coords) and self.coords[self._saved_pos] == out[len(out) - 1][0])",
+                 "isnone(start_pos) or len(out) == 0 or (0 <= self._saved_pos < len(self.coords) and self.coords[self._saved_pos] <= out[len(out) - 1][0])",
                  "forall(lambda a, b: implies(0 <= a and a < b and b < len(out), out[a][0] < out[b][0]))",
                  "forall(lambda k: out[k][0] < self.coords[i + _i0], 0, len(out)) or i + _i0 >= len(self.coords)",
                  "forall(lambda k: exists(lambda j: 0 <= j < i + _i0 and self.coords[j] == out[k][0] and self.payloads[j] is out[k][1] and "
